@@ -100,11 +100,43 @@ Definition resolve_code {K} (dec : forall a b : K, {a = b} + {a <> b}) (k : K) (
 
 Definition hist_final (c : hcase) : st * list res := run_ops (map fst (h_steps c)) (st0 (h_next c) 0).
 
+(* multiset inclusion *)
+Fixpoint sub_multiset {A} (dec : forall a b : A, {a = b} + {a <> b}) (a b : list A) : bool :=
+  match a with
+  | [] => true
+  | x :: a' => match remove_one dec x b with Some b' => sub_multiset dec a' b' | None => false end
+  end.
+
+(* An actor that receives an exit signal of its parent dies of it.  The signal sits in the Urgent
+   queue, so notifications pushed to the System queue during the same cascade (the operation that
+   started it and the OCascade steps after it, concurrent in the implementation) may or may not be
+   handled before it.  [victim_base] = the inbox before the operation that started the cascade in
+   which p received its parent's exit (None: p never did). *)
+Fixpoint victim_base (parent p : pid) (ops : list op) (s root : st) : option (list note) :=
+  match ops with
+  | [] => None
+  | o :: tl =>
+      let root' := match o with OCascade => root | _ => s end in
+      let s' := fst (exec o s) in
+      if existsb (is_parent_exit parent) (inbox_of p s') && negb (existsb (is_parent_exit parent) (inbox_of p s))
+      then Some (inbox_of p root')
+      else victim_base parent p tl s' root'
+  end.
+
+Definition actor_corr (ops : list op) (s0 sf : st) (a : pid * pid * list note) : bool :=
+  let '(p, parent, obs) := a in
+  match victim_base parent p ops s0 s0 with
+  | None => perm_eqb note_dec (inbox_of p sf) obs
+  | Some base =>
+      sub_multiset note_dec (base ++ filter (is_parent_exit parent) (inbox_of p sf)) obs &&
+      sub_multiset note_dec obs (inbox_of p sf)
+  end.
+
 (* model = implementation: return values, what every actor handled, process list, relation set, tables *)
 Definition corr_hist (c : hcase) : bool :=
   let '(s, rs) := hist_final c in
   reslist_eqb rs (map snd (h_steps c)) &&
-  forallb (fun a => let '(p, parent, obs) := a in perm_eqb note_dec (visible parent (inbox_of p s)) obs) (h_actors c) &&
+  forallb (actor_corr (map fst (h_steps c)) (st0 (h_next c) 0) s) (h_actors c) &&
   perm_eqb pid_dec (map fst (s_procs s)) (h_plist c) &&
   perm_eqb key_dec (rels (s_tm s)) (h_rels c) &&
   forallb (fun x => resolve_code N.eq_dec (fst x) (s_names s) s =? snd x) (h_names c) &&
@@ -112,15 +144,22 @@ Definition corr_hist (c : hcase) : bool :=
   forallb (fun x => Bool.eqb (negb (ahas N.eq_dec (fst x) (s_events s))) (snd x)) (h_events c).
 
 (* C04 on the implementation's observations: every actor handled, for every note, exactly the number
-   of copies the specification [expected] prescribes over the history (up to the parent's exit signal) *)
-Fixpoint expected_visible (parent c : pid) (x : note) (ops : list op) (s : st) : nat :=
+   of copies the specification [expected] prescribes over the history.  For an actor killed by its
+   parent's exit signal: at least what was due before the cascade started plus that signal, at most
+   what was due in total (see victim_base). Returns (lower, upper). *)
+Fixpoint exp_bounds (parent p : pid) (x : note) (ops : list op) (s : st) (acc accroot lower : nat) (dying : bool) : nat * nat :=
   match ops with
-  | [] => 0%nat
+  | [] => if dying then (lower, acc) else (acc, acc)
   | o :: tl =>
-      let dies := existsb (fun gr => if target_dec (fst gr) (TPid parent) then
-                                        Nat.eqb (expected o s c (mknote false (TPid parent) (snd gr))) 1 else false) (gone o s) in
-      if dies then (if is_parent_exit parent x then expected o s c x else 0%nat)
-      else (expected o s c x + expected_visible parent c x tl (fst (exec o s)))%nat
+      let e := expected o s p x in
+      let s' := fst (exec o s) in
+      if dying then exp_bounds parent p x tl s' (acc + e) accroot lower true
+      else
+        let accroot' := match o with OCascade => accroot | _ => acc end in
+        let kills := existsb (fun gr => if target_dec (fst gr) (TPid parent) then
+                                           Nat.eqb (expected o s p (mknote false (TPid parent) (snd gr))) 1 else false) (gone o s) in
+        if kills then exp_bounds parent p x tl s' (acc + e) accroot' (accroot' + (if is_parent_exit parent x then e else 0)) true
+        else exp_bounds parent p x tl s' (acc + e) accroot' lower false
   end.
 
 Definition spec_hist_c04 (c : hcase) : bool :=
@@ -128,7 +167,8 @@ Definition spec_hist_c04 (c : hcase) : bool :=
   let s0 := st0 (h_next c) 0 in
   let sf := fst (hist_final c) in
   forallb (fun a => let '(p, parent, obs) := a in
-     forallb (fun x => Nat.eqb (count_occ note_dec obs x) (expected_visible parent p x ops s0))
+     forallb (fun x => let '(lo, hi) := exp_bounds parent p x ops s0 0 0 0 false in
+                       let n := count_occ note_dec obs x in Nat.leb lo n && Nat.leb n hi)
              (obs ++ inbox_of p sf)) (h_actors c).
 
 (* C06 on the implementation's observations only: the observed relation set mentions only listed
